@@ -24,6 +24,7 @@ ENTRIES = [(PROJ, "ProjectiveObject." + m) for m in (
 
 
 def run(ctx):
+    ctx.do(DT.rule_lk4)
     ctx.do(MI.rule_homdiv1)
     ctx.do(P.rule_s1)
     ctx.do(P.rule_dual1)
